@@ -520,7 +520,11 @@ def glue_threading() -> None:
         # its frame, then it's possible that its identity was reused, and
         # we shouldn't trust the frame we get.
         was_alive = thread.is_alive()
+        if _verif.ENABLED:
+            _verif.point("thread_was_alive", thread=thread, alive=was_alive)
         inner_frame = sys._current_frames().get(thread.ident)  # type: ignore
+        if _verif.ENABLED:
+            _verif.point("thread_got_frame", thread=thread, frame=inner_frame)
         if inner_frame is None or not thread.is_alive() or not was_alive:
             return []
         return StackSlice(inner=inner_frame)
